@@ -11,6 +11,7 @@ import (
 	"encoding/json"
 	"flag"
 	"fmt"
+	"math"
 	"os"
 	"path"
 	"strings"
@@ -81,6 +82,9 @@ type opJ struct {
 	// is started meanwhile; B must wait, and the outcome must be that of A then B
 	A *opJ `json:"a,omitempty"`
 	B *opJ `json:"b,omitempty"`
+	// kind "initfail": a fresh manager's Initialize hits a storage read error (InGroups: in loadGroups, after
+	// loadRules and its repairs); kind "reinit": Initialize is called again on that same manager
+	InGroups bool `json:"in_groups,omitempty"`
 }
 
 // ---------- building PD objects (always fresh: the manager keeps and mutates what it is given) ----------
@@ -171,7 +175,7 @@ func (o opJ) updateCoq() string {
 
 func (o opJ) isUpdate() bool {
 	switch o.Kind {
-	case "restart", "corrupt", "drop", "overlap":
+	case "restart", "corrupt", "drop", "overlap", "initfail", "reinit":
 		return false
 	}
 	return true
@@ -189,6 +193,10 @@ func (o opJ) coq(writes []kvx13.Write) string {
 		return "OCorruptRule (" + bs(o.G) + ", " + bs(o.I) + ") " + v
 	case "drop":
 		return "OCorruptDrop (" + bs(o.G) + ", " + bs(o.I) + ")"
+	case "initfail":
+		return "OInitFail " + coqfmt.Bool(o.InGroups)
+	case "reinit":
+		return "OInitAgain " + coqfmt.Z(int64(o.MaxReplicas))
 	}
 	f := "None"
 	if o.FaultN > 0 {
@@ -292,7 +300,8 @@ type world struct {
 	kv       *kvx13.Base
 	st       *core.Storage
 	live     *placement.RuleManager
-	prevLive string // Coq text of the previous live dump ("" = none)
+	pending  *placement.RuleManager // a manager whose Initialize failed
+	prevLive string                 // Coq text of the previous live dump ("" = none)
 }
 
 func newWorld() *world {
@@ -356,6 +365,41 @@ func (w *world) exec(o opJ) stepOut {
 		m := placement.NewRuleManager(w.st, nil)
 		err = m.Initialize(o.MaxReplicas, nil)
 		w.kv.Take()
+		if err != nil {
+			w.live = nil
+		} else {
+			w.live = m
+		}
+	case "initfail":
+		m := placement.NewRuleManager(w.st, nil)
+		n := 1
+		if o.InGroups {
+			// loadRules scans one page per 100 rules (+1 when the count is a multiple of 100)
+			ks, _ := w.kv.Dump()
+			rules := 0
+			for _, k := range ks {
+				if strings.HasPrefix(k, "rules/") {
+					rules++
+				}
+			}
+			n = rules/100 + 2
+		}
+		w.kv.PlanLoadFail(n)
+		err = m.Initialize(3, nil)
+		w.kv.PlanLoadFail(0)
+		w.kv.Take()
+		w.live, w.pending = nil, m
+		if err == nil {
+			panic("initfail: Initialize succeeded")
+		}
+	case "reinit":
+		m := w.pending
+		if m == nil {
+			m = placement.NewRuleManager(w.st, nil)
+		}
+		err = m.Initialize(o.MaxReplicas, nil)
+		w.kv.Take()
+		w.pending = nil
 		if err != nil {
 			w.live = nil
 		} else {
@@ -551,9 +595,17 @@ type gen struct {
 
 func (g *gen) newVer() int { g.ver++; return g.ver }
 
+// indexes are Go ints: mostly small, sometimes at the ends of the range (differences that do not fit an int)
+func (g *gen) index(small int) int {
+	if g.r.Pct(8) {
+		return []int{math.MaxInt64, math.MinInt64, -10, -1, math.MaxInt64 - 1, math.MinInt64 + 1, -4611686018427387905}[g.r.Intn(7)]
+	}
+	return small
+}
+
 func (g *gen) rule(gid string) ruleJ {
 	r := g.r
-	ru := ruleJ{G: gid, I: idPool[r.Pick(10, 30, 15, 25, 20)], Index: r.Pick(55, 25, 20), Override: r.Pct(15), Ver: g.newVer()}
+	ru := ruleJ{G: gid, I: idPool[r.Pick(10, 30, 15, 25, 20)], Index: g.index(r.Pick(55, 25, 20)), Override: r.Pct(15), Ver: g.newVer()}
 	switch r.Pick(50, 25, 25) {
 	case 0: // whole key space
 	case 1:
@@ -604,6 +656,14 @@ func (g *gen) maybeBreak(ru *ruleJ) {
 
 func (g *gen) someGroup() string { return groupPool[g.r.Pick(40, 25, 20, 15)] }
 
+// group ids for group configurations: sometimes one that path.Join would not keep (rejected since fix 37320b1)
+func (g *gen) groupID() string {
+	if g.r.Pct(7) {
+		return []string{"", "..", ".", "a/../pd", "x//y", "./z", "a/", "/a", "a/./b", "a/b"}[g.r.Intn(10)]
+	}
+	return g.someGroup()
+}
+
 func (g *gen) knownKey() (string, string) {
 	if len(g.known) > 0 && g.r.Pct(85) {
 		n := g.r.Intn(len(g.known))
@@ -626,7 +686,7 @@ func (g *gen) knownKey() (string, string) {
 
 func (g *gen) bundle(id string) bundleJ {
 	r := g.r
-	b := bundleJ{ID: id, Index: r.Pick(50, 25, 15, 10), Override: r.Pct(20)}
+	b := bundleJ{ID: id, Index: g.index(r.Pick(50, 25, 15, 10)), Override: r.Pct(20)}
 	n := r.Pick(15, 45, 30, 10)
 	for i := 0; i < n; i++ {
 		ru := g.rule(id)
@@ -689,11 +749,11 @@ func (g *gen) next(malformed bool) opJ {
 			}
 		}
 	case 4:
-		o = opJ{Kind: "group", Group: &groupJ{ID: g.someGroup(), Index: r.Pick(30, 30, 20, 20), Override: r.Pct(30)}}
+		o = opJ{Kind: "group", Group: &groupJ{ID: g.groupID(), Index: g.index(r.Pick(30, 30, 20, 20)), Override: r.Pct(30)}}
 	case 5:
 		o = opJ{Kind: "delgroup", G: g.someGroup()}
 	case 6:
-		b := g.bundle(g.someGroup())
+		b := g.bundle(g.groupID())
 		o = opJ{Kind: "bundle", Bundle: &b}
 	case 7:
 		n := 1 + r.Intn(2)
@@ -705,6 +765,9 @@ func (g *gen) next(malformed bool) opJ {
 		o = opJ{Kind: "delbundle", G: g.someGroup()}
 	case 9:
 		o = opJ{Kind: "restart", MaxReplicas: 3}
+		if r.Pct(40) {
+			o = opJ{Kind: "initfail", InGroups: r.Pct(75)}
+		}
 	case 10:
 		if !malformed {
 			return g.next(malformed)
@@ -1236,6 +1299,12 @@ func runCase(R *res.Result, c caseJ, r *rng.R) (caseJ, caseOut) {
 			c.Ops = append(c.Ops, o)
 			out := step(o)
 			g.learn(o, out.res == "ROk")
+			if o.Kind == "initfail" { // Initialize is retried on the same manager
+				o2 := opJ{Kind: "reinit", MaxReplicas: 3}
+				c.Ops = append(c.Ops, o2)
+				step(o2)
+				continue
+			}
 			if out.res == "(RErr EStorage)" && r.Pct(65) { // the client retries the same update
 				o2 := o
 				o2.FaultN = 0
